@@ -1507,7 +1507,15 @@ impl Collection {
             }
             Ok(())
         })
-        .await
+        .await?;
+
+        // Persist what was backfilled before the caller registers the index in
+        // the collection metadata: a metadata write later in the same open
+        // callback (`remove_*_index`, `save_extension`) would otherwise durably
+        // register an index whose data was never written, and a failed callback
+        // or a crash before the post-open flush would leave it empty on reopen.
+        index.flush(now_ms).await?;
+        Ok(())
     }
 
     async fn backfill_bm25_index(&self, index: &BM25, now_ms: u64) -> Result<(), DBError> {
@@ -1521,7 +1529,11 @@ impl Collection {
             }
             Ok(())
         })
-        .await
+        .await?;
+
+        // See `backfill_btree_index`: persisted before it is registered.
+        index.flush(now_ms).await?;
+        Ok(())
     }
 
     async fn backfill_hnsw_index(&self, index: &Hnsw, now_ms: u64) -> Result<(), DBError> {
@@ -1535,7 +1547,11 @@ impl Collection {
             }
             Ok(())
         })
-        .await
+        .await?;
+
+        // See `backfill_btree_index`: persisted before it is registered.
+        index.flush(now_ms).await?;
+        Ok(())
     }
 
     async fn try_upgrade_schema(&mut self, mut new_schema: Schema) -> Result<(), DBError> {
